@@ -139,12 +139,21 @@ def run(ctx):
             else:
                 r.undecided('%s:%s:DefineNoArgs' % (CRATE, name), where(na[0]), 'condition of DefineNoArgs not recognised: %s' % c[:60])
         # body-less macro / name defined without Define -> Ok(None)
-        nones = [n for n in sx.walk(body) if sq(n) == 'Ok(None)']
+        nones = [n for n in sx.walk(body) if sx.is_call(n, 'Ok') and sq(n) == 'Ok(None)']
         r.inst('bodyless', {'Ok(None)_sites': len(nones)})
         if len(nones) == 0:
             r.fail('%s:%s:bodyless' % (CRATE, name), where(f), 'a macro without body (and a name defined without a Define) must expand to nothing (Ok(None))')
         elif len(nones) < 2:
-            r.undecided('%s:%s:bodyless' % (CRATE, name), where(f), 'only one Ok(None) exit found')
+            # the table maps a name to Option<Define>: "defined by name only" (None) is not "not defined".  A lookup that flattens the two levels
+            # (`get(..).and_then(..)`, `.flatten()`, `.cloned().flatten()`) sends a name-only macro to the DefineNotFound exit
+            flat_ = [n for n in sx.walk(body) if n.get('k') == 'mcall' and n['m'] in ('and_then', 'flatten') and
+                     any(z.get('k') == 'mcall' and z['m'] == 'get' for z in sx.walk(n['recv']))]
+            if flat_:
+                r.fail('%s:%s:bodyless' % (CRATE, name), pp.where(flat_[0].get('l') or f['l']),
+                       '%s flattens the table lookup (`%s`): a macro that is defined by name only (entry None: `+define+NAME`, a name handed in without text) is then treated '
+                       'like an undefined one and ends in DefineNotFound instead of expanding to nothing' % (name, sq(flat_[0])[:60]))
+            else:
+                r.undecided('%s:%s:bodyless' % (CRATE, name), where(f), 'only one Ok(None) exit found')
         # the expansion is re-preprocessed with the table that was passed in
         calls = [n for n in sx.walk(body) if sx.is_call(n, pp.loop_fn['name'])]
         r.inst('re-preprocess', {'calls': len(calls)})
